@@ -262,8 +262,14 @@ def targets(ctx):
         cls, E = cv.bp(msg), cv.bp(ename)
         mi = schema.msg(f"ks.{msg}")
         defined = n in schema.enums[f"ks.{ename}"].numbers
-        val = guard("try_value", E.try_value, n) if as_member else n
-        if as_member and not (val == n and int(val) == n):
+        if as_member == "foreign":
+            # a member of ANOTHER enum class carrying the same number (same-named enums of two packages / API versions):
+            # an int like any other as far as this field is concerned
+            Other = cv.bp("Plain" if ename != "Plain" else "Color")
+            val = guard("try_value_foreign", Other.try_value, n)
+        else:
+            val = guard("try_value", E.try_value, n) if as_member else n
+        if as_member is True and not (val == n and int(val) == n):
             out.append(("undefined_eq_int", f"try_value({n}) == {n} is False"))
         m = guard("construct", lambda: cls(**{field: wrap(val)}))
         m_set = cls()
@@ -330,7 +336,7 @@ def targets(ctx):
         ename = POS[pi][2]
         nums = schema.enums[f"ks.{ename}"].numbers
         n = draw(st.one_of(st.sampled_from(nums), st.sampled_from([-1, -2, 3, 99, 2**31 - 1, -(2**31), 2**31 - 2]), st.integers(-(2**31), 2**31 - 1)))
-        return {"pos": pi, "n": n, "as_member": draw(st.booleans()),
+        return {"pos": pi, "n": n, "as_member": draw(st.sampled_from([True, True, False, False, "foreign"])),
                 "variant": draw(st.sampled_from(["default", "default", "pydantic_dataclasses", "pydantic_dataclasses", "typing.310"]))}
 
     # corpus enum definitions (through the plugin) as fixed definition cases
